@@ -336,6 +336,11 @@ func (s *Service) accountPathsToVerificationRegexes(paths []string) []*regexp.Re
 			parts = append(parts, ".*")
 		}
 		parts[1] = strings.TrimPrefix(parts[1], "^")
+		if strings.Contains(parts[1], "|") {
+			// Alternation binds less tightly than the anchors and the wallet prefix, so group the account expression
+			// to ensure that the specifier matches the full name rather than the start or end of it.
+			parts[1] = fmt.Sprintf("(?:%s)", strings.TrimSuffix(parts[1], "$"))
+		}
 		var specifier string
 		if strings.HasSuffix(parts[1], "$") {
 			specifier = fmt.Sprintf("^%s/%s", parts[0], parts[1])
